@@ -479,6 +479,52 @@ static void pushCase(Rng & rng) {
         stat("push:" + err);
     }
 }
+
+// ------------------------------------------------------------------------------------------ what an accepted CooperativeModel does with its tables
+//   C06 coopdyn | S A graph | nT (rows cols entries)* | nB (tag actionTag rows cols values)* |
+//               (size psize (parentId actionId getId(parentId,actionId) getPartialSize(actionId))*size)*|S| |
+//               nQ (s a viaCopy reward (p pPartialFactors)*|space(S)|)*
+// graph, ids and probabilities are read from the OBJECT (getGraph / getTransitionFunction / getTransitionProbability /
+// getExpectedReward); half of the queries go through a copy-constructed model after the original was destroyed.
+static void coopDynLine(Rng & rng, std::unique_ptr<FM::CooperativeModel> & obj, const F::State & S, const F::Action & A,
+                        const F::DDN::TransitionMatrix & tm, const F::FactoredMatrix2D & rw) {
+    Line l; l << "C06" << "coopdyn" << "|"; l.nats(S); l.nats(A); dumpGraph(l, obj->getGraph());
+    l << "|" << (size_t)tm.size();
+    for (auto & m : tm) { l << (size_t)m.rows() << (size_t)m.cols(); for (long j = 0; j < m.rows(); ++j) for (long x = 0; x < m.cols(); ++x) l << (double)m(j, x); }
+    l << "|" << (size_t)rw.bases.size();
+    for (auto & b : rw.bases) { putTag(l, b.tag); putTag(l, b.actionTag); l << (size_t)b.values.rows() << (size_t)b.values.cols();
+        for (long x = 0; x < b.values.rows(); ++x) for (long y = 0; y < b.values.cols(); ++y) l << (double)b.values(x, y); }
+    l << "|";
+    const auto & g = obj->getGraph();
+    for (size_t i = 0; i < S.size(); ++i) {
+        l << g.getSize(i) << g.getPartialSize(i);
+        for (size_t j = 0; j < g.getSize(i); ++j) { auto [pid, aid] = g.getIds(i, j); l << pid << aid << g.getId(i, pid, aid) << g.getPartialSize(i, aid); }
+    }
+    l << "|";
+    size_t nS = 1, nA = 1; for (auto x : S) nS *= x; for (auto x : A) nA *= x;
+    auto nth = [](const F::Factors & sp, size_t k) { F::Factors f(sp.size()); for (size_t q = sp.size(); q-- > 0;) { f[q] = k % sp[q]; k /= sp[q]; } return f; };   // last factor fastest
+    std::vector<std::pair<size_t, size_t>> qs;
+    if (nS * nA <= 12) { for (size_t x = 0; x < nS; ++x) for (size_t y = 0; y < nA; ++y) qs.push_back({x, y}); }
+    else for (int q = 0; q < 8; ++q) qs.push_back({rng.below(nS), rng.below(nA)});
+    std::unique_ptr<FM::CooperativeModel> copy(new FM::CooperativeModel(*obj));
+    l << (size_t)qs.size();
+    for (size_t qi = 0; qi < qs.size(); ++qi) {
+        const bool viaCopy = qi * 2 >= qs.size();
+        if (viaCopy && obj) obj.reset();                 // the copy must not depend on the original (DDN holds a reference to the graph)
+        const FM::CooperativeModel & m = viaCopy ? *copy : *obj;
+        F::State s = nth(S, qs[qi].first); F::Action a = nth(A, qs[qi].second);
+        for (auto x : s) l << (size_t)x; for (auto x : a) l << (size_t)x;
+        l << viaCopy << m.getExpectedReward(s, a, s);
+        const auto ps = F::toPartialFactors(s), pa = F::toPartialFactors(a);
+        for (size_t k = 0; k < nS; ++k) {
+            F::State s1 = nth(S, k);
+            l << m.getTransitionProbability(s, a, s1) << m.getTransitionFunction().getTransitionProbability(ps, pa, F::toPartialFactors(s1));
+        }
+    }
+    l.emit();
+    stat("coopdyn:lines"); stat("coopdyn:queries", (long)qs.size()); stat("coopdyn:features_" + std::to_string(S.size()));
+    obj.reset(copy.release());
+}
 static void coopCase(Rng & rng, int force = 0) {   // force: 1 = well-formed arguments with discount 2.0, 2 = with NaN
     // CooperativeModel constructor: graph (possibly incomplete), transition matrices (count / shape / rows possibly wrong),
     // reward bases (tags / shapes possibly wrong), discount candidate.  Everything the constructor validates.
@@ -532,6 +578,7 @@ static void coopCase(Rng & rng, int force = 0) {   // force: 1 = well-formed arg
         size_t cols = safeSpace(bm.actionTag, A) + ((bad && bmode == 2) ? 1 : 0);
         size_t rows = safeSpace(bm.tag, S) + ((bad && bmode == 3) ? 1 : 0);
         bm.values = Matrix2D::Zero(rows, cols);
+        for (size_t x = 0; x < rows; ++x) for (size_t y = 0; y < cols; ++y) bm.values(x, y) = verif::dyadicReward(rng);
         putTag(l, bm.tag); putTag(l, bm.actionTag); l << rows << cols;
         rw.bases.push_back(bm);
     }
@@ -543,6 +590,7 @@ static void coopCase(Rng & rng, int force = 0) {   // force: 1 = well-formed arg
         for (size_t i = 0; i < nf; ++i) { const auto & m = obj->getTransitionFunction().transitions[i]; for (long j = 0; j < m.rows(); ++j) for (long x = 0; x < m.cols(); ++x) l << (double)m(j, x); }
     }
     l.emit();
+    if (obj) coopDynLine(rng, obj, S, A, tm, rw);
     stat("coop:" + err); stat("coop_tmode:" + std::to_string(tmode > 3 ? 4 : tmode)); if (nB) stat("coop_bmode:" + std::to_string(bmode > 3 ? 4 : bmode));
 }
 
